@@ -378,6 +378,13 @@ def w_words(items):
         verdict = d.out[d.run(word)]
         counts[verdict] += 1
         p = realise(unit, element, word, rules)
+        if len(word) % 3 == 2 and unit != "@metadata":
+            # where the parent hangs is not what its rule speaks about: below foreign content of a metadata element, two levels down
+            from metapype.model.node import Node as _N
+            holder = _N("metadata")
+            wrap = _N("zzForeignWrapper")
+            holder.add_child(wrap)
+            wrap.add_child(p)
         ff, craised, errs = validate_both(unit, element, p)
         Node.store.clear()
         n += 1
